@@ -27,6 +27,7 @@ M12 = [
     ("M8-ctor-wrong-property-two-sites", "mutation", [("src/odfdo/link.py", "                self.title = title\n", "                self.name = title\n")]),
     ("M9-from-tag-ignores-registry-for-one-tag", "mutation", [("src/odfdo/element.py", "        klass = _class_registry.get(elem.tag, cls)\n        return klass(tag_or_elem=elem)",
         "        klass = _class_registry.get(elem.tag, cls)\n        if elem.tag.endswith('}line-break') and elem.getparent() is not None and elem.getparent().getparent() is not None:\n            klass = cls\n        return klass(tag_or_elem=elem)")]),
+    ("M10-parent-ctor-ignores-forwarded-arg", "mutation", [("src/odfdo/shapes.py", "            if layer:\n                self.layer = layer\n", "")]),
     ("R1-rewrite-guard-and-order", "rewrite", [("src/odfdo/section.py", "            if style:\n                self.style = style\n            if name:\n                self.name = name\n",
         "            if name:\n                self.name = name\n            if style:\n                self.style = style\n")]),
     ("R2-rewrite-register-through-list", "rewrite", [("src/odfdo/section.py", "register_element_class(Section)", "register_element_class_list(Section, (Section._tag,))"),
